@@ -481,8 +481,11 @@ def register_op(sess, ctx, functions, oi):
         sym = ctx.get_or_insert_extern_symbol(op["name"], op["lib"], preload=bool(op.get("preload")), libpath="/opt/lib" if op.get("libpath") else None)
         if sym.name != op["name"] or sym.module is not m or (had and not any(sym is h for h in had)):
             raise core.Violation(sess.armed, "aborted", {"exception": "extern-symbol", "message": "get_or_insert_extern_symbol did not hand out the module's symbol of that name", "session": sess.index}, {"exc": "extern-symbol"})
-        world.syms[op["name"]] = sym
-        model.proxy_syms.add(op["name"])
+        if not had:
+            world.syms[op["name"]] = sym
+            model.proxy_syms.add(op["name"])
+        elif len(had) == 1 and sum(1 for s_ in m.symbols if s_.name == op["name"]) != 1:
+            raise core.Violation(sess.armed, "aborted", {"exception": "extern-symbol", "message": "get_or_insert_extern_symbol created a second symbol of a name the module already has", "session": sess.index}, {"exc": "extern-symbol"})
         sess.fired["op.extern-get" if had else "op.extern-new"] += 1
     elif k == "insfn":
         p = sess.patches[oi] = SimPatch(sess, oi, op["patch"])
